@@ -37,6 +37,8 @@ POOLS = {
     "caseruns": ["HTTPResponse", "httpResponse", "HttpResponse", "VendorRateID"],
     "prefixed": ["ns:a", "a", "x:a"],
     "nonascii": ["д", "Д", "é", "ß", "SS"],
+    # characters whose case mapping changes the length or has a title-case form
+    "nonascii2": ["İ", "ı", "ǅ", "ﬁx", "i"],
     "depth": ["a"],
     "underscore": ["_", "a", "a1"],
     "fields": ["text", "text_content", "type"],
@@ -57,6 +59,20 @@ def atom(ch):
 
 def tla_str(s):
     return "<<" + ",".join('"%s"' % atom(ch) for ch in s) + ">>"
+
+
+_chars_ok = False
+
+
+def check_chars():
+    """the generated character table of the specification (Chars.tla) against the real char functions of Rust"""
+    global _chars_ok
+    if _chars_ok:
+        return
+    r = c.harness(["chars-check", "--table", os.path.join(c.SPEC, "chars_table.json")])
+    if r["bad"]:
+        raise c.ToolError("Chars.tla disagrees with Rust's char functions on %s" % str(r["bad"])[:500])
+    _chars_ok = True
 
 
 def tla_pool(names):
@@ -156,11 +172,15 @@ def render_pools(rep, pid, tier, pools, relevant, opkinds=("add", "text", "optio
                  maxdepth=2, limit=None, opts="two", extra_opts=0, api_trace=False):
     """enumerate trees per pool with TLC, replay through the real API, judge the real renderings with RenderTrace"""
     c.build_harness()
+    check_chars()
     maxops = maxops or (3 if tier == "quick" else 4)
     limit = limit or (1500 if tier == "quick" else 20000)
     total_tags = Counter()
     for pool in pools:
-        r, cases = run_pool(pid, pool, maxops, maxdepth, opkinds)
+        # the state space grows with (names x attribute lists x paths)^operations: the larger pools get one operation less
+        big = len(POOLS[pool]) * (1 + len(ATTRS.get(pool, ATTRS["default"]))) > 8
+        mo = maxops - 1 if (tier == "thorough" and big and maxops >= 4) else maxops
+        r, cases = run_pool(pid, pool, mo, maxdepth, opkinds, timeout=1800)
         if r.violated:
             rep.violation({"kind": "model", "module": "MC_ElementApi", "invariant": r.violated, "trace": r.error_text},
                           "the specification violates %s (pool %s)" % (r.violated, pool))
@@ -244,7 +264,7 @@ def keyword_pools(tier):
 
 def c09_render(rep, tier):
     """C09, renderer half: field and struct order under both sort options"""
-    render_pools(rep, "C09", tier, ["plain", "prefixed", "case", "attrcase"], C09_TAGS, opts="all", limit=120 if tier == "quick" else 5000)
+    render_pools(rep, "C09", tier, ["plain", "prefixed", "case", "attrcase", "casefold", "separators"], C09_TAGS, opts="all", limit=120 if tier == "quick" else 5000)
     random_trees(rep, "C09", tier, C09_TAGS, opts="all", remove=0, n=60 if tier == "quick" else 1500, ops=25)
     # scale instead of small scope: elements with many distinct children / attributes (positions >= 10)
     wide = ["k%s" % ch for ch in "abcdefghijklmnopqr"]
